@@ -472,6 +472,16 @@ func runC07(c *Ctx) {
 		c.Check(okArgs, "R3.wiring", "filter|"+shortFn(callee)+" sees the table and the fresh listing", w.Pos(pc.Pos()), "(s.certs, s.agent.List())", "the pruning pass is not given the in-memory table and this activation's agent listing: "+w.Short(pc.Call.Args[1])+", "+w.Short(pc.Call.Args[2]))
 	}
 	c.Floor("R3.wiring", len(passes), 2, "pruning passes called by filter")
+	// ... and no activation answers without them: every successful return of filter comes after both passes (a fast
+	// path that returns the table as it is when the agent lists nothing skips the expiry pass over the in-memory table)
+	for _, r := range w.MayBeNilReturns(filter) {
+		if filter.Recover != nil && r.Block() == filter.Recover {
+			continue
+		}
+		for _, pc := range passes {
+			c.Check(InstrDominates(pc, r), "R3.wiring", "filter|success only after "+shortFn(pc.Call.StaticCallee()), w.Pos(r.Pos()), "the pass dominates the successful return", "filter can return successfully on a path that did not run "+shortFn(pc.Call.StaticCallee())+": certificates outside their validity window (or orphaned ones) stay in the table and are listed")
+		}
+	}
 	// R6: while the passes range over the listing, the remover may overwrite only the slot of the removed
 	// identity in the shared backing array (swap-remove); shifting / appending over other slots makes the
 	// callers' range loops skip or repeat identities.
